@@ -5,6 +5,7 @@ package main
 // atomic, time.Now, a little reflect, assembly-backed helpers).
 
 import (
+	"go/token"
 	"fmt"
 	"go/types"
 	"math"
@@ -108,6 +109,23 @@ func init() {
 	e[v("Reach")] = func(fr *frame, args []value) value {
 		st := fr.i.needState("reach")
 		st.reached[argString(args[0])] = true
+		return nil
+	}
+	// float rendering of decimals is only used for telemetry gauges
+	e["(cosmossdk.io/math.LegacyDec).Float64"] = func(fr *frame, args []value) value { return tuple{float64(0), iface{}} }
+	e["(cosmossdk.io/math.LegacyDec).MustFloat64"] = func(fr *frame, args []value) value { return float64(0) }
+	// the gas-limit / gas-used ratio computed for a telemetry gauge in the x/evm message server: a division of
+	// symbolic decimals that feeds nothing but the gauge
+	e["(cosmossdk.io/math.LegacyDec).QuoInt64"] = func(fr *frame, args []value) value {
+		if fr.caller != nil && strings.HasPrefix(fr.caller.fn.String(), "(*github.com/EscanBE/evermint/v12/x/evm/keeper.Keeper).EthereumTx$") {
+			return args[0]
+		}
+		fr.i.skipExtFor = fr.fn
+		return callSSA(fr.i, fr.caller, token.NoPos, fr.fn, args, nil)
+	}
+	e[v("Switch")] = func(fr *frame, args []value) value {
+		fr.i.needState("switch")
+		fr.i.extState["switch:"+argString(args[0])] = args[1].(bool)
 		return nil
 	}
 	e[v("ReachIf")] = func(fr *frame, args []value) value {
